@@ -135,7 +135,7 @@ def run(P, rep, roots, rule="PURE", allow_param_writes=(), stream_rule=None, pid
 
 def stream_io(P, rep, R, rule="PURE.io"):
     """no I/O on shared streams (std::cout/cerr/clog) in the reachable set"""
-    rep.rule(rule, "no reachable function touches std::cout/std::cerr/std::clog or C stdio")
+    rep.rule(rule, "no reachable function touches std::cout/std::cerr/std::clog or C stdio, opens a file stream, or consults the environment (getenv, system)")
     n = 0
     for k in sorted(R):
         F = P.funcs.get(k)
@@ -148,4 +148,12 @@ def stream_io(P, rep, R, rule="PURE.io"):
                 if qn in ("std::cout", "std::cerr", "std::clog", "stdout", "stderr", "printf", "puts", "fprintf"):
                     rep.violation(rule, "%s uses %s" % (F.qn, qn), F.nloc(node), F.qn, qn,
                                   "shared stream touched on the query path", key="%s|%s|%s" % (rule, F.qn, qn))
+            if node.get("k") in ("CallExpr",) and node.get("callee"):
+                qn = P.d(node["callee"]).get("qn", "")
+                if qn in ("getenv", "std::getenv", "secure_getenv", "fopen", "std::fopen", "system", "std::system", "open", "read", "popen"):
+                    rep.violation(rule, "%s calls %s" % (F.qn, qn), F.nloc(node), F.qn, qn, "a query consults the process environment / file system: its answer is "
+                                  "not a function of the parsed file and the query", key="%s|%s|%s" % (rule, F.qn, qn), witness="same query under a different environment")
+            if node.get("k") in ("VarDecl", "CXXConstructExpr", "CXXTemporaryObjectExpr") and any(t in node.get("t", "") for t in ("basic_ifstream", "basic_ofstream", "basic_fstream")):
+                rep.violation(rule, "%s opens a file stream" % F.qn, F.nloc(node), F.qn, node.get("t", "")[:60], "a query reads or writes files",
+                              key="%s|%s|fstream" % (rule, F.qn), witness="query with the file changed or missing")
     rep.ok(rule, "%d reachable functions scanned" % n)
